@@ -1,6 +1,7 @@
 (* C10: the follow-up analysis.  Good is a set of states closed under make_attempt in which every attempt
    either fails visibly or leaves files describing the edited project; every crash state outside the
-   bad points is in Good (for all n and all numbers of immediate files). *)
+   bad points of the modelled variant is in Good (for all n and all numbers of immediate files).
+   The boolean c selects whether compile_commands.json is tracked as well (c = true: ok_result_all). *)
 From Coq Require Import List Bool Arith Lia.
 From BFG Require Import State.Crash State.CrashProofs.
 Import ListNotations.
@@ -17,16 +18,38 @@ Definition K2 (p : proj) (s : fs) : Prop :=
 (* build file empty *)
 Definition K3 (s : fs) : Prop := is_full (f_build s) = false.
 (* old build file, and the next lazy regeneration decides to run *)
-Definition K4 (p : proj) (e : edit) (s : fs) : Prop :=
+Definition K4 (v : variant) (p : proj) (e : edit) (s : fs) : Prop :=
   PreB p s /\ is_full (f_env s) = true /\ (uses_find p = true -> is_absent (f_deps s) = false) /\
   ((e_script e = true /\ cont (f_cache s) <> Empty) \/
-   (e_script e = false /\ is_full (f_deps s) = true /\ cont (f_cache s) = Full Old)).
-(* build file and outputs already new *)
-Definition K5 (p : proj) (s : fs) : Prop :=
+   (e_script e = false /\ is_full (f_deps s) = true /\ cont (f_cache s) = Full Old) \/
+   (* F1: a complete cache strictly newer than the old build file is not trusted *)
+   (dnc v = true /\ is_full (f_deps s) = true /\ is_full (f_cache s) = true /\ 2 < mt (f_cache s))).
+(* build file and outputs already new; c = true: compile_commands.json as well *)
+Definition K5 (c : bool) (p : proj) (s : fs) : Prop :=
   describes_new s = true /\ is_full (f_env s) = true /\ length (f_imm s) = n_imm p /\ 4 <= mt (f_build s) /\
-  Forall (fun x => 4 <= mt x) (f_imm s) /\ (uses_find p = true -> is_absent (f_deps s) = false).
+  Forall (fun x => 4 <= mt x) (f_imm s) /\ (uses_find p = true -> is_absent (f_deps s) = false) /\
+  (c = true -> compdb_new p s = true).
 
-Definition Good (p : proj) (e : edit) (s : fs) : Prop := K1 p s \/ K2 p s \/ K3 s \/ K4 p e s \/ K5 p s.
+Definition Good (c : bool) (v : variant) (p : proj) (e : edit) (s : fs) : Prop :=
+  K1 p s \/ K2 p s \/ K3 s \/ K4 v p e s \/ K5 c p s.
+
+(* ok_result (c = false) and ok_result_all (c = true) in one definition *)
+Definition okc (c : bool) (p : proj) (r : bool * fs * bool) : bool :=
+  negb (fst (fst r)) || (describes_new (snd (fst r)) && (negb c || compdb_new p (snd (fst r)))).
+
+Lemma okc_false : forall p r, okc false p r = ok_result r.
+Proof. intros. unfold okc, ok_result. simpl. now rewrite andb_true_r. Qed.
+
+Lemma okc_true : forall p r, okc true p r = ok_result_all p r.
+Proof. intros. reflexivity. Qed.
+
+Lemma okc_new : forall c p ok s b, describes_new s = true -> (c = true -> compdb_new p s = true) ->
+  okc c p (ok, s, b) = true.
+Proof.
+  intros c p ok s b Hd Hc. unfold okc. cbn [fst snd]. rewrite Hd. destruct c; simpl.
+  - rewrite Hc by reflexivity. apply orb_true_r.
+  - apply orb_true_r.
+Qed.
 
 Lemma full_not_absent : forall x, is_full x = true -> is_absent x = false.
 Proof. intros [c m]; destruct c; simpl; auto; discriminate. Qed.
@@ -55,31 +78,35 @@ Qed.
 Lemma input_mt_le : forall e, input_mt e <= 3.
 Proof. intros e. unfold input_mt. destruct (e_script e); lia. Qed.
 
-(* the state after a full run (plus the stamp touched by make) is in K5 *)
-Lemma run_in_K5 : forall cal p t s, 4 <= t -> length (f_imm s) = n_imm p ->
-  let s1 := apply_ops t (run_ops cal p) s in
+(* the state after a full run (plus the stamp touched by make) is in K5, compile_commands.json included *)
+Lemma run_in_K5 : forall c v p t s, 4 <= t -> length (f_imm s) = n_imm p ->
+  let s1 := apply_ops t (run_ops v p) s in
   let s2 := if 0 <? n_imm p then set s1 FStamp (mkF (Full New) t) else s1 in
-  is_full (f_build s2) = true /\ describes_new s2 = true /\ K5 p s2.
+  is_full (f_build s2) = true /\ describes_new s2 = true /\ K5 c p s2.
 Proof.
-  intros cal p t s Ht Hl s1 s2. subst s1 s2. rewrite run_result by exact Hl.
+  intros c v p t s Ht Hl s1 s2. subst s1 s2. rewrite run_result by exact Hl.
   assert (Hd : forall st,
-    K5 p (mkFs (newf t) (if uses_find p then newf t else f_deps s) (if uses_find p then newf t else absent)
-               (newf t) st (if has_compdb p then newf t else f_compdb s) (repeat (newf t) (n_imm p)))).
-  { intros st. unfold K5, describes_new. simpl. rewrite forallb_new_repeat, repeat_length.
-    repeat split; auto. - apply Forall_repeat. simpl. exact Ht. - intros Hf. rewrite Hf. reflexivity. }
+    K5 c p (mkFs (newf t) (if uses_find p then newf t else f_deps s) (if uses_find p then newf t else absent)
+                 (newf t) st (if has_compdb p then newf t else f_compdb s) (repeat (newf t) (n_imm p))
+                 (if uses_find p && adeps v then absent else f_tmp s))).
+  { intros st. unfold K5, describes_new, compdb_new. simpl. rewrite forallb_new_repeat, repeat_length.
+    repeat split; auto.
+    - apply Forall_repeat. simpl. exact Ht.
+    - intros Hf. rewrite Hf. reflexivity.
+    - intros _. destruct (has_compdb p); reflexivity. }
   destruct (0 <? n_imm p); simpl; (split; [reflexivity|]); (split; [|apply Hd]);
     unfold describes_new; simpl; now rewrite forallb_new_repeat.
 Qed.
 
-Lemma skip_in_K5 : forall p t s, 4 <= t -> K5 p s ->
+Lemma skip_in_K5 : forall c p t s, 4 <= t -> K5 c p s ->
   let s1 := apply_ops t (skip_ops p) s in
   let s2 := if 0 <? n_imm p then set s1 FStamp (mkF (Full New) t) else s1 in
-  is_full (f_build s2) = true /\ describes_new s2 = true /\ K5 p s2.
+  is_full (f_build s2) = true /\ describes_new s2 = true /\ K5 c p s2.
 Proof.
-  intros p t s Ht (Hd & He & Hl & Hb & Hf & Hdeps) s1 s2. subst s1 s2. rewrite skip_result by exact Hl.
+  intros c p t s Ht (Hd & He & Hl & Hb & Hf & Hdeps & Hcd) s1 s2. subst s1 s2. rewrite skip_result by exact Hl.
   unfold describes_new in Hd. apply andb_prop in Hd. destruct Hd as [Hnb Hni].
-  assert (Hk : forall st, K5 p (mkFs (newf t) (f_deps s) (f_cache s) (touch t (f_build s)) st (f_compdb s)
-                                      (map (touch t) (f_imm s)))).
+  assert (Hk : forall st, K5 c p (mkFs (newf t) (f_deps s) (f_cache s) (touch t (f_build s)) st (f_compdb s)
+                                        (map (touch t) (f_imm s)) (f_tmp s))).
   { intros st. unfold K5, describes_new. simpl. rewrite is_new_touch, Hnb, forallb_new_touch, Hni, map_length.
     repeat split; auto. - rewrite touch_mt_new by exact Hnb. exact Ht.
     - eapply Forall_impl; [|apply Forall_touch_mt; exact Hni]. simpl. intros; lia. }
@@ -89,18 +116,24 @@ Proof.
     unfold describes_new; simpl; now rewrite is_new_touch, Hnb, forallb_new_touch, Hni.
 Qed.
 
-Lemma envfail_keeps_K5 : forall p t s, K5 p s -> K5 p (apply_ops t env_ops s).
-Proof. intros p t s (Hd & He & Hl & Hb & Hf & Hdeps). unfold K5, describes_new in *. simpl. repeat split; auto. Qed.
-
-Lemma K5_build_full : forall p s, K5 p s -> is_full (f_build s) = true.
+Lemma envfail_keeps_K5 : forall c p t s, K5 c p s -> K5 c p (apply_ops t env_ops s).
 Proof.
-  intros p s (Hd & _). unfold describes_new in Hd. apply andb_prop in Hd. apply is_new_full. tauto.
+  intros c p t s (Hd & He & Hl & Hb & Hf & Hdeps & Hcd). unfold K5, describes_new, compdb_new in *. simpl.
+  repeat split; auto.
 Qed.
 
-Theorem attempt_good : forall cal p e t s, valid p e = true -> 4 <= t -> Good p e s ->
-  ok_result (make_attempt cal p e t s) = true /\ Good p e (snd (fst (make_attempt cal p e t s))).
+Lemma K5_build_full : forall c p s, K5 c p s -> is_full (f_build s) = true.
 Proof.
-  intros cal p e t s Hv Ht [H | [H | [H | [H | H]]]].
+  intros c p s (Hd & _). unfold describes_new in Hd. apply andb_prop in Hd. apply is_new_full. tauto.
+Qed.
+
+Lemma K5_okc : forall c p ok s b, K5 c p s -> okc c p (ok, s, b) = true.
+Proof. intros c p ok s b (Hd & _ & _ & _ & _ & _ & Hcd). apply okc_new; assumption. Qed.
+
+Theorem attempt_good : forall c v p e t s, valid p e = true -> 4 <= t -> Good c v p e s ->
+  okc c p (make_attempt v p e t s) = true /\ Good c v p e (snd (fst (make_attempt v p e t s))).
+Proof.
+  intros c v p e t s Hv Ht [H | [H | [H | [H | H]]]].
   - (* K1 *)
     destruct H as (Hp & Henv & Hdeps). pose proof Hp as (Hb & _).
     assert (Hbf : is_full (f_build s) = true) by (rewrite Hb; reflexivity).
@@ -129,50 +162,52 @@ Proof.
     assert (Ha : uses_find p && is_absent (f_deps s) = false).
     { destruct (uses_find p); [|reflexivity]. simpl. auto. }
     rewrite Ha, (preb_tgt p s Hp). change (is_absent oldf) with false. change (mt oldf) with 2. rewrite orb_false_l.
-    rewrite (trig_true p e s Hv) by (intros Hf He; destruct Hdec as [[Hs _] | (_ & Hd & _)]; [congruence | exact Hd]).
-    assert (Hrun : regenerate true cal p e t s = (true, apply_ops t (run_ops cal p) s)).
-    { unfold regenerate, lazy_decision. rewrite Henv, (preb_min p s Hp).
-      destruct Hdec as [[Hs Hc] | (Hs & Hd & Hc)].
-      - unfold input_mt. rewrite Hs. simpl. destruct (cont (f_cache s)); [reflexivity | congruence | reflexivity].
+    rewrite (trig_true p e s Hv)
+      by (intros Hf He; destruct Hdec as [[Hs _] | [(_ & Hd & _) | (_ & Hd & _)]]; [congruence | exact Hd | exact Hd]).
+    assert (Hrun : regenerate true v p e t s = (true, apply_ops t (run_ops v p) s)).
+    { unfold regenerate, lazy_decision, cache_newer. rewrite Henv, (preb_min p s Hp), Hb. change (mt oldf) with 2.
+      destruct Hdec as [[Hs Hc] | [(Hs & Hd & Hc) | (Hn & Hd & Hc & Hm)]].
+      - unfold input_mt. rewrite Hs. simpl.
+        destruct (cont (f_cache s)); [reflexivity | congruence |].
+        destruct (dnc v && (2 <? mt (f_cache s))); reflexivity.
       - unfold input_mt. rewrite Hs, Hc. simpl.
-        unfold valid in Hv. rewrite Hs in Hv. simpl in Hv. apply andb_prop in Hv. destruct Hv as [_ Hd']. now rewrite Hd'. }
+        unfold valid in Hv. rewrite Hs in Hv. simpl in Hv. apply andb_prop in Hv. destruct Hv as [_ Hd']. rewrite Hd'.
+        destruct (dnc v && (2 <? mt (f_cache s))); reflexivity.
+      - unfold is_full in Hc. destruct (cont (f_cache s)); try discriminate.
+        apply Nat.ltb_lt in Hm. rewrite Hn, Hm. reflexivity. }
     rewrite Hrun. cbn [fst snd].
-    destruct (run_in_K5 cal p t s Ht Hl) as (Hfull & Hnew & Hk5).
-    rewrite Hfull. cbn [fst snd]. unfold ok_result. cbn [fst snd]. rewrite Hnew. simpl.
-    split; [reflexivity|]. right; right; right; right. exact Hk5.
+    destruct (run_in_K5 c v p t s Ht Hl) as (Hfull & Hnew & Hk5).
+    rewrite Hfull. cbn [fst snd]. split; [apply K5_okc; exact Hk5|]. right; right; right; right. exact Hk5.
   - (* K5 *)
-    pose proof H as (Hd & Henv & Hl & Hb & Hf & Hdeps).
-    unfold make_attempt. rewrite (K5_build_full p s H).
+    pose proof H as (Hd & Henv & Hl & Hb & Hf & Hdeps & Hcd).
+    unfold make_attempt. rewrite (K5_build_full c p s H).
     assert (Ha : uses_find p && is_absent (f_deps s) = false).
     { destruct (uses_find p); [|reflexivity]. simpl. auto. }
     rewrite Ha.
-    match goal with |- context [if ?c then _ else (true, s, false)] => destruct c end.
-    2: { unfold ok_result. cbn [fst snd]. rewrite Hd. simpl. split; [reflexivity|].
-         right; right; right; right. exact H. }
-    assert (Hcase : regenerate true cal p e t s = (true, apply_ops t (run_ops cal p) s) \/
-                    regenerate true cal p e t s = (true, apply_ops t (skip_ops p) s) \/
-                    regenerate true cal p e t s = (false, apply_ops t env_ops s)).
+    match goal with |- context [if ?b then _ else (true, s, false)] => destruct b end.
+    2: { cbn [fst snd]. split; [apply K5_okc; exact H|]. right; right; right; right. exact H. }
+    assert (Hcase : regenerate true v p e t s = (true, apply_ops t (run_ops v p) s) \/
+                    regenerate true v p e t s = (true, apply_ops t (skip_ops p) s) \/
+                    regenerate true v p e t s = (false, apply_ops t env_ops s)).
     { unfold regenerate, lazy_decision. rewrite Henv.
       destruct (cont (f_cache s)) as [| |g]; auto.
+      destruct (dnc v && cache_newer s); auto.
       assert (Hm : min_out s <? input_mt e = false).
       { apply Nat.ltb_ge. pose proof (input_mt_le e). pose proof (min_out_ge 4 s Hb Hf). lia. }
       rewrite Hm. destruct g; [destruct (e_dir e)|]; auto. }
     destruct Hcase as [Hr | [Hr | Hr]]; rewrite Hr; cbn [fst snd].
-    + destruct (run_in_K5 cal p t s Ht Hl) as (Hfull & Hnew & Hk5).
-      rewrite Hfull. unfold ok_result. cbn [fst snd]. rewrite Hnew. simpl.
-      split; [reflexivity|]. right; right; right; right. exact Hk5.
-    + destruct (skip_in_K5 p t s Ht H) as (Hfull & Hnew & Hk5).
-      rewrite Hfull. unfold ok_result. cbn [fst snd]. rewrite Hnew. simpl.
-      split; [reflexivity|]. right; right; right; right. exact Hk5.
-    + unfold ok_result. cbn [fst snd]. simpl. split; [reflexivity|].
-      right; right; right; right. apply envfail_keeps_K5. exact H.
+    + destruct (run_in_K5 c v p t s Ht Hl) as (Hfull & Hnew & Hk5).
+      rewrite Hfull. split; [apply K5_okc; exact Hk5|]. right; right; right; right. exact Hk5.
+    + destruct (skip_in_K5 c p t s Ht H) as (Hfull & Hnew & Hk5).
+      rewrite Hfull. split; [apply K5_okc; exact Hk5|]. right; right; right; right. exact Hk5.
+    + split; [reflexivity|]. right; right; right; right. apply envfail_keeps_K5. exact H.
 Qed.
 
-Theorem attempts_good : forall cal p e k t s, valid p e = true -> 4 <= t -> Good p e s ->
-  forallb ok_result (attempts cal p e t k s) = true.
+Theorem attempts_good : forall c v p e k t s, valid p e = true -> 4 <= t -> Good c v p e s ->
+  forallb (okc c p) (attempts v p e t k s) = true.
 Proof.
   induction k; intros t s Hv Ht Hg; simpl; [reflexivity|].
-  destruct (attempt_good cal p e t s Hv Ht Hg) as [Hok Hg'].
+  destruct (attempt_good c v p e t s Hv Ht Hg) as [Hok Hg'].
   rewrite Hok. simpl. apply IHk; auto.
 Qed.
 
@@ -190,7 +225,7 @@ Proof.
   change (fold_left (apply_op t) l ?a) with (apply_ops t l a).
   destruct (IHl (apply_op t s a) Ht H3) as (A & B & C & D & E & F).
   rewrite A, B, C, D, E.
-  destruct a as [f|f|f|f|d]; try contradiction; try (repeat split; auto; fail);
+  destruct a as [f|f|f|f|d|f g]; try contradiction; try (repeat split; auto; fail);
     destruct f; try contradiction; simpl; repeat split; auto; try apply upd_length;
     intros G; apply F; simpl; apply upd_Forall; auto.
 Qed.
@@ -199,12 +234,12 @@ Lemma benign_imm : forall n k, Forall benign (imm_from k n).
 Proof. induction n; intros; simpl; repeat constructor; auto. Qed.
 
 Definition L1 (p : proj) := env_ops ++ imm_from 0 (n_imm p).
-Definition R (cal : bool) (p : proj) :=
-  if cal then deps_ops p ++ build_ops ++ cache_ops p ++ compdb_ops p
-  else deps_ops p ++ cache_ops p ++ build_ops ++ compdb_ops p.
+Definition R (v : variant) (p : proj) :=
+  if cal v then deps_ops v p ++ build_ops ++ cache_ops p ++ compdb_ops p
+  else deps_ops v p ++ cache_ops p ++ build_ops ++ compdb_ops p.
 
-Lemma run_split : forall cal p, run_ops cal p = L1 p ++ R cal p.
-Proof. intros. unfold run_ops, pre_ops, L1, R. destruct cal; repeat rewrite <- app_assoc; reflexivity. Qed.
+Lemma run_split : forall v p, run_ops v p = L1 p ++ R v p.
+Proof. intros. unfold run_ops, pre_ops, L1, R. destruct (cal v); repeat rewrite <- app_assoc; reflexivity. Qed.
 
 Lemma imm_from_length : forall n k, length (imm_from k n) = 3 * n.
 Proof. induction n; intros; simpl; [reflexivity|]. rewrite IHn. lia. Qed.
@@ -217,34 +252,42 @@ Proof. intros. unfold L1. apply Forall_app; split; [repeat constructor | apply b
 
 Lemma S1_state : forall p, apply_ops 4 (L1 p) (fs_old p) =
   mkFs (newf 4) (if uses_find p then oldf else absent) (if uses_find p then oldf else absent) oldf (stamp0 p)
-       (if has_compdb p then oldf else absent) (repeat (newf 4) (n_imm p)).
+       (if has_compdb p then oldf else absent) (repeat (newf 4) (n_imm p)) absent.
 Proof.
   intros. unfold L1. rewrite apply_ops_app.
   rewrite (imm_from_full 4 (n_imm p) 0 _ [] (repeat oldf (n_imm p))); [reflexivity | reflexivity | reflexivity |].
   apply repeat_length.
 Qed.
 
-Lemma PreB_S1 : forall p env deps cache cdb,
-  PreB p (mkFs env deps cache oldf (stamp0 p) cdb (repeat (newf 4) (n_imm p))).
+Lemma PreB_S1 : forall p env deps cache cdb tmp,
+  PreB p (mkFs env deps cache oldf (stamp0 p) cdb (repeat (newf 4) (n_imm p)) tmp).
 Proof.
   intros. unfold PreB. simpl. repeat split; auto.
   - apply Forall_repeat. simpl. lia.
   - apply repeat_length.
 Qed.
 
-Lemma K5_S1 : forall p env deps cache st cdb, is_full env = true -> (uses_find p = true -> is_absent deps = false) ->
-  K5 p (mkFs env deps cache (newf 4) st cdb (repeat (newf 4) (n_imm p))).
+Lemma K5_S1 : forall c p env deps cache st cdb tmp, is_full env = true -> (uses_find p = true -> is_absent deps = false) ->
+  (c = true -> negb (has_compdb p) || is_new cdb = true) ->
+  K5 c p (mkFs env deps cache (newf 4) st cdb (repeat (newf 4) (n_imm p)) tmp).
 Proof.
-  intros. unfold K5, describes_new. simpl. rewrite forallb_new_repeat, repeat_length. repeat split; auto.
+  intros. unfold K5, describes_new, compdb_new. simpl. rewrite forallb_new_repeat, repeat_length. repeat split; auto.
   apply Forall_repeat. simpl. lia.
 Qed.
 
-Theorem crash_good : forall cal p e n, valid p e = true -> bad_point cal p e n = false ->
-  Good p e (crash 4 n (run_ops cal p) (fs_old p)).
+(* the crash state has a complete new build file next to an incomplete compile_commands.json *)
+Definition compdb_stale_at (v : variant) (p : proj) (n : nat) : bool :=
+  let s := crash 4 n (run_ops v p) (fs_old p) in
+  is_new (f_build s) && negb (compdb_new p s).
+
+Theorem crash_good : forall c v p e n, valid p e = true -> bad_point v p e n = false ->
+  (c = true -> compdb_stale_at v p n = false) ->
+  Good c v p e (crash 4 n (run_ops v p) (fs_old p)).
 Proof.
-  intros cal p e n Hv Hbad. unfold crash. rewrite run_split.
+  intros c v p e n Hv Hbad Hcs. unfold compdb_stale_at in Hcs. unfold crash in *. rewrite run_split in *.
   destruct (le_lt_dec n (length (L1 p))) as [Hn | Hn].
   - (* inside .bfg_environ / the immediate files *)
+    clear Hcs.
     rewrite firstn_app. replace (n - length (L1 p)) with 0 by lia. rewrite firstn_O, app_nil_r.
     destruct (benign_inv 4 (firstn n (L1 p)) (fs_old p)) as (A & B & C & D & E & F);
       [lia | apply Forall_firstn, benign_L1 |].
@@ -257,47 +300,126 @@ Proof.
     + right; right; right; left. unfold K4. rewrite A, B. simpl.
       split; [exact Hp|]. split; [exact Henv|]. split.
       * intros Hf. rewrite Hf. reflexivity.
-      * unfold valid in Hv. destruct (e_script e); [left | right].
+      * unfold valid in Hv. destruct (e_script e); [left | right; left].
         -- split; [reflexivity|]. destruct (uses_find p); simpl; discriminate.
         -- simpl in Hv. apply andb_prop in Hv. destruct Hv as [Hf _]. rewrite Hf. auto.
     + left. unfold K1. rewrite A. simpl. split; [exact Hp|]. split; [exact Henv|].
       intros Hf. rewrite Hf. reflexivity.
   - (* after the immediate files: finitely many positions in the tail *)
-    replace n with (length (L1 p) + (n - length (L1 p))) by lia.
-    rewrite firstn_app_2, apply_ops_app, S1_state.
+    replace n with (length (L1 p) + (n - length (L1 p))) in Hcs |- * by lia.
+    rewrite firstn_app_2, apply_ops_app, S1_state in Hcs |- *.
     assert (Hj : uses_find p = true -> e_script e = false ->
-                 n - length (L1 p) <> 1 /\ (cal = false -> n - length (L1 p) <> 4)).
+                 (adeps v = false -> n - length (L1 p) <> 1) /\
+                 (cal v = false -> dnc v = false -> n - length (L1 p) <> (if adeps v then 5 else 4))).
     { intros Hf He. unfold bad_point, deps_pt, window_pt in Hbad. rewrite Hf, He in Hbad. simpl in Hbad.
-      apply orb_false_elim in Hbad. destruct Hbad as [H1 H2]. apply Nat.eqb_neq in H1.
-      rewrite L1_length. split; [lia|]. intros Hc. rewrite Hc in H2. simpl in H2. apply Nat.eqb_neq in H2. lia. }
+      apply orb_false_elim in Hbad. destruct Hbad as [H1 H2]. rewrite L1_length. split.
+      - intros Ha. rewrite Ha in H1. simpl in H1. apply Nat.eqb_neq in H1. lia.
+      - intros Hc Hd. rewrite Hc, Hd in H2. simpl in H2. apply Nat.eqb_neq in H2. destruct (adeps v); lia. }
     assert (Hvf : uses_find p = false -> e_script e = true).
     { intros Hf. unfold valid in Hv. rewrite Hf in Hv. simpl in Hv. now rewrite orb_false_r in Hv. }
     remember (n - length (L1 p)) as j eqn:Ej. clear Ej Hn Hbad.
-    unfold R, deps_ops, cache_ops, compdb_ops, build_ops.
-    destruct (e_script e) eqn:Hes; destruct (uses_find p) eqn:Hf; destruct (has_compdb p) eqn:Hc; destruct cal;
+    destruct v as [vc va vd]. unfold R, deps_ops, cache_ops, compdb_ops, build_ops in *. cbn [cal adeps dnc] in *.
+    destruct (e_script e) eqn:Hes; destruct (uses_find p) eqn:Hf; destruct (has_compdb p) eqn:Hc;
+      destruct vc; destruct va; destruct vd;
       try (specialize (Hvf eq_refl); discriminate);
-      do 9 (try destruct j as [|j]); simpl;
-      try (exfalso; destruct (Hj eq_refl eq_refl) as [J1 J2]; first [apply J1; reflexivity | apply J2; reflexivity]);
+      do 10 (try destruct j as [|j]); simpl in Hcs |- *;
+      try (exfalso; destruct (Hj eq_refl eq_refl) as [J1 J2];
+           first [apply J1; reflexivity | apply J2; reflexivity]);
       first
         [ solve [right; right; left; reflexivity]
-        | solve [right; right; right; right; apply K5_S1; [reflexivity | intros; first [reflexivity | congruence]]]
+        | solve [right; right; right; right; apply K5_S1;
+                 [reflexivity | intros; first [reflexivity | congruence]
+                 | intros Hct; rewrite Hc;
+                   first [reflexivity | specialize (Hcs Hct); unfold compdb_new in Hcs; rewrite Hc in Hcs; discriminate]]]
         | solve [right; left; unfold K2; split; [apply PreB_S1|]; repeat split; auto]
         | solve [right; right; right; left; unfold K4; split; [apply PreB_S1|]; split; [reflexivity|];
                  split; [intros; first [reflexivity | congruence]|]; left; split; [assumption || reflexivity | simpl; discriminate]]
         | solve [right; right; right; left; unfold K4; split; [apply PreB_S1|]; split; [reflexivity|];
-                 split; [intros; first [reflexivity | congruence]|]; right; repeat split; assumption || reflexivity]
+                 split; [intros; first [reflexivity | congruence]|]; right; left; repeat split; assumption || reflexivity]
+        | solve [right; right; right; left; unfold K4; split; [apply PreB_S1|]; split; [reflexivity|];
+                 split; [intros; first [reflexivity | congruence]|]; right; right; repeat split; simpl; auto]
         | idtac ].
 Qed.
 
-Theorem safe_partial : forall cal p e n k, valid p e = true -> bad_point cal p e n = false ->
-  safe_at cal p e n k = true.
+Lemma forallb_same : forall (A : Type) (f g : A -> bool) l, (forall x, f x = g x) -> forallb f l = forallb g l.
+Proof. induction l; intros H; simpl; [reflexivity|]. now rewrite H, IHl. Qed.
+
+Theorem safe_partial : forall v p e n k, valid p e = true -> bad_point v p e n = false ->
+  safe_at v p e n k = true.
 Proof.
-  intros. unfold safe_at. apply attempts_good; [assumption | lia | apply crash_good; assumption].
+  intros. unfold safe_at.
+  rewrite (forallb_same _ ok_result (okc false p)) by (intros; now rewrite okc_false).
+  apply attempts_good; [assumption | lia | apply crash_good; [assumption | assumption | discriminate]].
+Qed.
+
+(* compile_commands.json included: additionally the crash must not fall between the completion of the build file
+   and the completion of compile_commands.json *)
+Theorem safe_all_partial : forall v p e n k, valid p e = true -> bad_point v p e n = false ->
+  compdb_stale_at v p n = false -> safe_all_at v p e n k = true.
+Proof.
+  intros. unfold safe_all_at.
+  change (ok_result_all p) with (okc true p).
+  apply attempts_good; [assumption | lia | apply crash_good; auto].
 Qed.
 
 (* with the cache saved after the build file, only the truncated depfile remains *)
-Theorem safe_cache_last : forall p e n k, valid p e = true -> n <> deps_pt p -> safe_at true p e n k = true.
+Theorem safe_cache_last : forall p e n k, valid p e = true -> n <> deps_pt p -> safe_at v_cal p e n k = true.
 Proof.
   intros p e n k Hv Hn. apply safe_partial; [exact Hv|]. unfold bad_point. simpl.
   apply Nat.eqb_neq in Hn. rewrite Hn. simpl. apply andb_false_r.
+Qed.
+
+(* the repaired code (F1 + F2): no bad point is left *)
+Lemma bad_point_repaired : forall p e n, bad_point v_repaired p e n = false.
+Proof. intros. unfold bad_point. simpl. apply andb_false_r. Qed.
+
+Theorem safe_repaired : forall p e n k, valid p e = true -> safe_at v_repaired p e n k = true.
+Proof. intros. apply safe_partial; [assumption | apply bad_point_repaired]. Qed.
+
+Theorem safe_all_repaired : forall p e n k, valid p e = true -> compdb_stale_at v_repaired p n = false ->
+  safe_all_at v_repaired p e n k = true.
+Proof. intros. apply safe_all_partial; [assumption | apply bad_point_repaired | assumption]. Qed.
+
+(* each repair alone closes exactly its own point *)
+Theorem safe_F1_only : forall p e n k, valid p e = true -> n <> deps_pt p -> safe_at (mkV false false true) p e n k = true.
+Proof.
+  intros p e n k Hv Hn. apply safe_partial; [exact Hv|]. unfold bad_point. simpl.
+  apply Nat.eqb_neq in Hn. rewrite Hn. simpl. apply andb_false_r.
+Qed.
+
+Theorem safe_F2_only : forall p e n k, valid p e = true -> n <> window_pt (mkV false true false) p ->
+  safe_at (mkV false true false) p e n k = true.
+Proof.
+  intros p e n k Hv Hn. apply safe_partial; [exact Hv|]. unfold bad_point. simpl.
+  apply Nat.eqb_neq in Hn. rewrite Hn. apply andb_false_r.
+Qed.
+
+(* the guard of safe_all_partial as an index interval: the crash points from the completion of the build file up to
+   (excluding) the completion of compile_commands.json *)
+Theorem compdb_stale_window : forall v p n, compdb_stale_at v p n = compdb_window v p n.
+Proof.
+  intros v p n. unfold compdb_stale_at, compdb_window, compdb_lo, compdb_hi, crash. rewrite run_split.
+  rewrite app_length, L1_length.
+  destruct (le_lt_dec n (length (L1 p))) as [Hn | Hn].
+  - rewrite firstn_app. replace (n - length (L1 p)) with 0 by lia. rewrite firstn_O, app_nil_r.
+    destruct (benign_inv 4 (firstn n (L1 p)) (fs_old p)) as (_ & _ & C & _);
+      [lia | apply Forall_firstn, benign_L1 |].
+    rewrite C. simpl. rewrite L1_length in Hn.
+    destruct v as [vc va vd]. unfold R, deps_ops, cache_ops, compdb_ops, build_ops. cbn [cal adeps dnc].
+    destruct (has_compdb p); [|reflexivity]. simpl.
+    symmetry. apply andb_false_intro1. apply Nat.leb_gt.
+    destruct vc, va, (uses_find p); simpl; lia.
+  - assert (Es : forall j, apply_ops 4 (firstn (length (L1 p) + j) (L1 p ++ R v p)) (fs_old p) =
+                           apply_ops 4 (firstn j (R v p)) (apply_ops 4 (L1 p) (fs_old p)))
+      by (intros; rewrite firstn_app_2, apply_ops_app; reflexivity).
+    replace n with (length (L1 p) + (n - length (L1 p))) by lia.
+    rewrite Es, S1_state, L1_length.
+    remember (n - (2 + 3 * n_imm p)) as j eqn:Ej. clear Ej Hn Es.
+    destruct v as [vc va vd]. unfold R, deps_ops, cache_ops, compdb_ops, build_ops, compdb_new. cbn [cal adeps dnc].
+    destruct (uses_find p); destruct (has_compdb p); destruct vc; destruct va;
+      do 10 (try destruct j as [|j]); simpl;
+      repeat match goal with
+             | |- context [?a <=? ?b] => destruct (Nat.leb_spec a b)
+             | |- context [?a <? ?b] => destruct (Nat.ltb_spec a b)
+             end; simpl; try reflexivity; lia.
 Qed.
